@@ -272,7 +272,16 @@ class Ev:
             if h.type is None:
                 return self.block(h.body)
             ts = h.type.elts if isinstance(h.type, ast.Tuple) else [h.type]
+            expanded = []
             for t in ts:
+                v = self.env.get(t.id) if isinstance(t, ast.Name) else None      # EXC = (ValueError, TypeError)
+                if isinstance(v, type) and issubclass(v, BaseException):
+                    expanded.append(ast.Name(id=v.__name__, ctx=ast.Load()))
+                elif isinstance(v, tuple) and v and all(isinstance(x, type) and issubclass(x, BaseException) for x in v):
+                    expanded += [ast.Name(id=x.__name__, ctx=ast.Load()) for x in v]
+                else:
+                    expanded.append(t)
+            for t in expanded:
                 tn = U(t)
                 cls = getattr(builtins, tn, None)
                 ecls = getattr(builtins, name, None)
